@@ -178,6 +178,18 @@ def closed_case(ctx, rng, idx):
     r = call(m.log_kappa, np.arange(2, D + 1))
     if not isinstance(r, _Raised):
         close(ctx, "C15:closed-form", r, [math.log(kappa(N, d)) for d in range(2, D + 1)], "C15:log_kappa(array):differs", wit)
+    # ... the sizes in any order, with repeats, starting at the largest possible size d = N (the arrays callers build from
+    # the sizes of a hyperedge list are not sorted)
+    forms = [list(range(D, 1, -1)), [D] + list(range(2, D + 1)) + [D, 2]]
+    if N <= 40:
+        forms += [list(range(N, 1, -1)), [N, 2] + [rng.randint(2, N) for _ in range(4)]]
+    shuffled = list(range(2, D + 1)) * 2
+    rng.shuffle(shuffled)
+    forms.append(shuffled)
+    for dl in forms:
+        r = call(m.log_kappa, np.array(dl))
+        if not isinstance(r, _Raised):
+            close(ctx, "C15:closed-form", r, [math.log(kappa(N, d)) for d in dl], "C15:log_kappa(array in another order):differs", lambda x=None: wit((dl, x)))
     # ---- C -----------------------------------------------------------------------------------
     pair_sum = sum(float(u0[i] @ w0 @ u0[j]) for i, j in itertools.combinations(range(N), 2))
     for d in ["all"] + list(range(2, D + 1)):
@@ -311,6 +323,22 @@ def fit_case(ctx, rng, idx):
     wts = [rng.randint(1, 4) if weighted else 1 for _ in edges]
     h = hgx.Hypergraph(edges, weighted=weighted, weights=wts if weighted else None)
     h.add_nodes(list(range(N)))
+    if not forced and rng.random() < 0.35:
+        # the hypergraph OBJECT has a past: it was fitted (and asked for its likelihood) before, then edited in place so that the
+        # numbers of nodes and hyperedges - or even every degree and size - stay what they were.  What is judged below is the
+        # fit on its CURRENT content.
+        from ..mutate import same_count_edit, degree_preserving_swap
+
+        with np.errstate(all="ignore"):
+            m0 = call(mm.HyMMSBM, K=K, seed=1, assortative=False)
+            if not isinstance(m0, _Raised):
+                call(m0.fit, h, n_iter=1)
+                call(m0.log_likelihood, h)
+        ed = degree_preserving_swap(rng, h) if rng.random() < 0.5 else same_count_edit(rng, h, uniform_size=rng.choice([2, 3]))
+        if ed:
+            ctx.event("hypergraph-object-fitted-before-then-edited-in-place")
+            edges = sorted(tuple(sorted(e)) for e in h.get_edges())
+            wts = [h.get_weight(e) if weighted else 1 for e in edges]
     dmax = max(len(e) for e in edges)
     assortative = rng.random() < 0.5
     w_prior = rng.choice([0.0, 0.0, 1.0, 1.0, 0.3, 5.0])
